@@ -27,6 +27,8 @@ type lockGraph struct {
 	selfs    map[string]string // "lock|holder→acquirer" → witness
 	selfSite map[string]string
 	nFuncs   int
+	// pubsub model: dispatcher functions and module subscribers found
+	nDispatchers, nModSubs int
 	// callbacks made while a lock is held: "lock | caller → callee"
 	callbacksUnderLock []string
 }
@@ -37,6 +39,90 @@ var subscriberMayCall = [][3]string{
 	{"impl", "manager", "ChannelState"}, {"impl", "manager", "SendVoucher"}, {"impl", "manager", "SendVoucherResult"}, {"impl", "manager", "UpdateValidationStatus"},
 	{"impl", "manager", "PauseDataTransferChannel"}, {"impl", "manager", "ResumeDataTransferChannel"}, {"impl", "manager", "CloseDataTransferChannel"},
 	{"impl", "manager", "TransferChannelStatus"}, {"impl", "manager", "InProgressChannels"},
+}
+
+// psLock models the one lock of the event pubsub (a dependency, so its body is
+// not analysed): Publish holds it (shared) while the dispatcher calls each
+// subscriber; Subscribe and the returned Unsubscribe function take it
+// exclusively. Confirmed by reading go-pubsub pubsub.go (trusted version).
+const psLock = "go-pubsub.PubSub.subscribersLk"
+
+// isPubsubAcquire: a call that takes the pubsub lock exclusively.
+func isPubsubAcquire(p *core.Prog, c *ssa.CallCommon) bool {
+	if p.CalleeName(c) == "(*github.com/hannahhoward/go-pubsub.PubSub).Subscribe" {
+		return true
+	}
+	if !c.IsInvoke() && c.StaticCallee() == nil {
+		if _, isBuiltin := c.Value.(*ssa.Builtin); !isBuiltin {
+			t := core.TypeShort(c.Value.Type())
+			return t == "datatransfer.Unsubscribe" || t == "github.com/hannahhoward/go-pubsub.Unsubscribe"
+		}
+	}
+	return false
+}
+
+// pubsubDispatchers: the functions handed to pubsub.New; Publish runs them
+// with the pubsub lock held.
+func pubsubDispatchers(p *core.Prog) map[*ssa.Function]bool {
+	out := map[*ssa.Function]bool{}
+	for _, f := range p.Prod {
+		for _, ci := range core.CallSites(f) {
+			if p.CalleeName(ci.Common()) != "github.com/hannahhoward/go-pubsub.New" || len(ci.Common().Args) == 0 {
+				continue
+			}
+			v := ci.Common().Args[0]
+			for i := 0; i < 4; i++ {
+				switch x := v.(type) {
+				case *ssa.ChangeType:
+					v = x.X
+				case *ssa.MakeClosure:
+					v = x.Fn
+				}
+			}
+			if fn, ok := v.(*ssa.Function); ok {
+				out[fn] = true
+			}
+		}
+	}
+	return out
+}
+
+// moduleSubscribers: functions of the module registered as event subscribers
+// (passed to a SubscribeToEvents call); the dispatcher calls them like any
+// client subscriber.
+func moduleSubscribers(p *core.Prog) []*ssa.Function {
+	seen := map[*ssa.Function]bool{}
+	var out []*ssa.Function
+	for _, f := range p.Prod {
+		for _, ci := range core.CallSites(f) {
+			c := ci.Common()
+			if !strings.HasSuffix(p.CalleeName(c), ".SubscribeToEvents") {
+				continue
+			}
+			for _, a := range c.Args {
+				v := a
+				for i := 0; i < 4; i++ {
+					switch x := v.(type) {
+					case *ssa.ChangeType:
+						v = x.X
+					case *ssa.MakeInterface:
+						v = x.X
+					case *ssa.MakeClosure:
+						v = x.Fn
+					}
+				}
+				if fn, ok := v.(*ssa.Function); ok {
+					fn = core.Unwrap(fn)
+					if p.InProd(fn) && len(fn.Blocks) > 0 && !seen[fn] {
+						seen[fn] = true
+						out = append(out, fn)
+					}
+				}
+			}
+		}
+	}
+	sort.Slice(out, func(i, j int) bool { return out[i].String() < out[j].String() })
+	return out
 }
 
 func buildLockGraph(r *R) *lockGraph {
@@ -63,6 +149,9 @@ func buildLockGraph(r *R) *lockGraph {
 			stubTargets = append(stubTargets, f)
 		}
 	}
+	dispatchers := pubsubDispatchers(p)
+	modSubs := moduleSubscribers(p)
+	lg.nDispatchers, lg.nModSubs = len(dispatchers), len(modSubs)
 	isSubscriberCall := func(ci ssa.CallInstruction) bool {
 		c := ci.Common()
 		if c.IsInvoke() || c.StaticCallee() != nil {
@@ -79,6 +168,11 @@ func buildLockGraph(r *R) *lockGraph {
 				for _, t := range stubTargets {
 					syncOut[f] = append(syncOut[f], core.Edge{Site: ci.(ssa.Instruction), Callee: t, Kind: "user-callback"})
 				}
+				if dispatchers[f] {
+					for _, t := range modSubs {
+						syncOut[f] = append(syncOut[f], core.Edge{Site: ci.(ssa.Instruction), Callee: t, Kind: "module-subscriber"})
+					}
+				}
 			}
 		}
 	}
@@ -90,12 +184,18 @@ func buildLockGraph(r *R) *lockGraph {
 			if _, isGo := ci.(*ssa.Go); isGo {
 				continue
 			}
+			id := ""
 			if op := classifyLock(ci.Common()); op != nil && op.acquire {
-				lg.acquire[f][op.id] = nil
-				if lg.final[f][op.id] == nil {
-					lg.final[f][op.id] = map[*ssa.Function]*ssa.Function{}
+				id = op.id
+			} else if isPubsubAcquire(p, ci.Common()) {
+				id = psLock
+			}
+			if id != "" {
+				lg.acquire[f][id] = nil
+				if lg.final[f][id] == nil {
+					lg.final[f][id] = map[*ssa.Function]*ssa.Function{}
 				}
-				lg.final[f][op.id][f] = nil
+				lg.final[f][id][f] = nil
 			}
 		}
 	}
@@ -160,6 +260,16 @@ func buildLockGraph(r *R) *lockGraph {
 				continue
 			}
 			H := held[ins]
+			if dispatchers[f] {
+				// Publish calls the dispatcher with the pubsub lock held
+				H2 := lockSet{}
+				for k, v := range H {
+					H2[k] = v
+				}
+				H2[psLock] = true
+				H2[psLock+"/R"] = true
+				H = H2
+			}
 			if _, isDefer := ci.(*ssa.Defer); isDefer {
 				// runs at function exit: locks released by earlier-registered defers
 				// are still held, approximated by the set held at registration
@@ -167,7 +277,11 @@ func buildLockGraph(r *R) *lockGraph {
 			if len(H) == 0 {
 				continue
 			}
-			if op := classifyLock(ci.Common()); op != nil {
+			op := classifyLock(ci.Common())
+			if op == nil && isPubsubAcquire(p, ci.Common()) {
+				op = &lockOp{id: psLock, acquire: true}
+			}
+			if op != nil {
 				if op.acquire {
 					for _, h := range H.ids() {
 						// RLock while holding RLock of the same lock is also a hazard (writer in between), keep it
